@@ -29,6 +29,7 @@ var (
 	c02XMLValue  = regexp.MustCompile(` value="[^"]*"`)
 	c02JSONType  = regexp.MustCompile(`"type": ?"[A-Za-z]*"`)
 	c02JSONValue = regexp.MustCompile(`"value": ?("[^"]*"|-?[0-9.eE+]+|true|false)`)
+	c02JSONTagM  = regexp.MustCompile(`"tag": ?"[A-Za-z0-9]*"`)
 	c02JSONObj   = regexp.MustCompile(`\{"tag"`)
 	c02JSONArr   = regexp.MustCompile(`"value": ?\[`)
 	c02XMLOpen   = regexp.MustCompile(`<[A-Za-z]`)
@@ -52,7 +53,20 @@ func c02TextMutate(r *h.Rand, format string, doc []byte) ([]byte, string) {
 	if len(doc) == 0 {
 		return doc, "empty"
 	}
-	switch r.Intn(11) {
+	switch r.Intn(12) {
+	case 11:
+		// JSON: a member only present under two differently capitalised names with different contents
+		if format != "json" {
+			return doc, "none"
+		}
+		switch r.Intn(3) {
+		case 0:
+			return c02ReplaceNth(c02JSONValue, doc, r.Intn(1000), `"Value": "first", "VALUE": "second"`), "case-variant-members"
+		case 1:
+			return c02ReplaceNth(c02JSONType, doc, r.Intn(1000), `"Type": "TextString", "TYPE": "Integer"`), "case-variant-members"
+		default:
+			return c02ReplaceNth(c02JSONTagM, doc, r.Intn(1000), `"Tag": "Operation", "TAG": "UniqueIdentifier"`), "case-variant-members"
+		}
 	case 9:
 		// a member of a structure's value array that is not an object (JSON) / stray character
 		// data or an unexpected child inside a structure (XML)
@@ -206,8 +220,14 @@ func c02TextCase(c *h.Ctx, format string, doc []byte, kind string) {
 		if string(snapshot) != string(doc) {
 			c.Fail("C02/"+format+"/input-mutated/"+tg.name, "the input document was modified by the decoder", cj)
 		}
-		if r1 := c02TextDecode(format, doc, tg.ty); r1.class != r0.class || r1.repr != r0.repr {
-			c.Fail("C02/"+format+"/not-deterministic/"+tg.name, fmt.Sprintf("second decode of the same document: %s then %s", r0.class, r1.class), cj)
+		for rep := 0; rep < 6; rep++ {
+			if r1 := c02TextDecode(format, doc, tg.ty); r1.class != r0.class || r1.repr != r0.repr {
+				c.Fail("C02/"+format+"/not-deterministic/"+tg.name, fmt.Sprintf("decoding the same document again: %s then %s", r0.class, r1.class), cj)
+				break
+			}
+			if kind != "mutated" {
+				break
+			}
 		}
 	}
 }
